@@ -1,4 +1,4 @@
 From AV Require Import Lib.Base Lib.Utf8 Model.Writer.
 Require Extraction.
 Require Import ExtrOcamlBasic.
-Extraction "model.ml" keep serialize_headers reason_ok method_ok safe_header utf8_encode split_crlf.
+Extraction "model.ml" keep serialize_headers reason_ok method_ok safe_header utf8_encode split_crlf wrun winit.
